@@ -271,6 +271,8 @@ type c32Machine struct {
 	idx  map[*netIfa]int
 	// statistics per LSP id
 	saw map[packet.LSPID]map[string]bool
+	// deferUpdater: do not play the updater goroutine right after the next own-LSP reception
+	deferUpdater bool
 }
 
 func (x *c32Machine) note(id packet.LSPID, what string) {
@@ -436,7 +438,10 @@ func (x *c32Machine) recvLSP(c int, id packet.LSPID, seq uint32, rl uint16) {
 	br := x.m.recvLSP(c, id, seq, rl)
 	x.note(id, "lsp_"+br)
 	x.c.Class("lsp_" + br)
-	x.runUpdater(what)
+	if !x.deferUpdater {
+		x.runUpdater(what)
+	}
+	x.deferUpdater = false
 	x.compare(what)
 }
 
@@ -507,7 +512,23 @@ func (x *c32Machine) recvCSNP(c int, start, end packet.LSPID, es []c32SNPEntry, 
 func (x *c32Machine) ticks(k int) {
 	l := x.rig.srv.lsdbL2
 	for i := 0; i < k; i++ {
+		// "until it ages out": an aging tick never makes a stored foreign LSP younger, whatever else is (not)
+		// specified about it (purged LSPs, placeholders). Only the own LSP is refreshed locally.
+		before := map[packet.LSPID]uint16{}
+		l.lspsMu.RLock()
+		for id, e := range l.lsps {
+			before[id] = e.lspdu.RemainingLifetime
+		}
+		l.lspsMu.RUnlock()
 		l.decrementRemainingLifetimes()
+		l.lspsMu.RLock()
+		for id, e := range l.lsps {
+			if rl, ok := before[id]; ok && id != c32IDs[0] && e.lspdu.RemainingLifetime > rl {
+				l.lspsMu.RUnlock()
+				x.t.Fatalf("aging tick %d of %d: remaining lifetime of stored LSP %s grew from %d to %d", i+1, k, c32IDStr(id), rl, e.lspdu.RemainingLifetime)
+			}
+		}
+		l.lspsMu.RUnlock()
 		x.m.tick()
 		what := fmt.Sprintf("aging tick %d of %d", i+1, k)
 		x.runUpdater(what)
@@ -712,7 +733,12 @@ func c32Run(t *rapid.T, rec *kit.Recorder) {
 			if rapid.IntRange(0, 39).Draw(t, "purge") == 17 {
 				rl = 0
 			}
-			c.Logf("lsp if=%d id=%s seq=%d rl=%d", ci, c32IDStr(id), seq, rl)
+			// The updater goroutine regenerates the own LSP some time after a newer own copy arrived; in one third
+			// of the receptions it is "slow": the request stays pending until a later step plays the updater, so
+			// that several own copies can arrive before the next origination.
+			x.deferUpdater = id == c32IDs[0] && rapid.IntRange(0, 2).Draw(t, "slow_updater") == 0
+			c.Logf("lsp if=%d id=%s seq=%d rl=%d slow_updater=%v", ci, c32IDStr(id), seq, rl, x.deferUpdater)
+			c.ClassIf(x.deferUpdater, "own_copy_with_slow_updater")
 			x.recvLSP(ci, id, seq, rl)
 		case "csnp", "psnp":
 			ci := rapid.IntRange(0, n-1).Draw(t, "if")
